@@ -195,12 +195,14 @@ impl Node {
 
         // Step 2. Let selectedcontent be the first selectedcontent element descendant of select in tree order
         // if any such element exists; otherwise return null.
-        // FIXME: This does not visit the nodes in tree order
         let mut remaining = VecDeque::default();
         remaining.extend(self.children.borrow().iter().cloned());
         let mut selectedcontent = None;
         while let Some(node) = remaining.pop_front() {
-            remaining.extend(node.children.borrow().iter().cloned());
+            // Tree order: the children of a node come before its following siblings.
+            for child in node.children.borrow().iter().rev() {
+                remaining.push_front(child.clone());
+            }
 
             let NodeData::Element { name, .. } = &node.data else {
                 continue;
